@@ -344,7 +344,11 @@ def refine_conds(cfg, defs, node, cs, fold, rounds=4, ident=None, _depth=0):
     is not True) -- for every known condition on that local.  If exactly one definition remains, the conditions under
     which that definition runs hold at ``node`` too, so do the outcomes of the branches between the definition and
     ``node`` that every way takes, and so does each known comparison with the defining expression in place of the
-    local -- provided nothing in between re-binds a name those expressions read."""
+    local -- provided nothing in between re-binds a name those expressions read.
+
+    Likewise for a plain local known to be true / false (``fix = False ... fix = a != b ... if fix and ..:``): a definition
+    binding a constant of the other truth is ruled out; when one definition remains, its expression has that truth --
+    what that says is worked out where the definition stands and carried over to ``node``."""
     from ..cfg import expand_conds
     out = list(cs)
     known = set((norm(t), p) for t, p in out)
